@@ -53,7 +53,30 @@ def run_case(cs):
     for n in nested:
         r = drive.run("create", [os.path.join(root, n), "-h", rng.choice(world.FORMATS)])
         steps.append(f"seal child {n!r} => {r.exit}")
+    base = 1
+    if not nested and rng.random() < 0.08:
+        # a long-lived history: the run sequence crosses 9999 -> 10000 (the loader accepts numbers of 4 or more digits)
+        r0 = drive.run("create", [root, "-h", "md5"])
+        if r0.exit == 0:
+            base = 9997 + rng.randint(0, 1)
+            hist.renumber_flat_history(root, base - 1)
+            cs.count("histories_renumbered_to_9997+")
     for i in range(nruns):
+        if i > 0 and rng.random() < 0.08 and "ascmhl_chain.xml" in (hist.listing(root).get(".") or {}):
+            # a run that died after its manifest was moved into place and before the chain file was replaced:
+            # the manifest exists, the chain does not list it
+            cp = os.path.join(root, "ascmhl", "ascmhl_chain.xml")
+            with open(cp, "rb") as f:
+                old_chain = f.read()
+            clock.freeze(now)
+            ro = drive.run("create", [root, "-h", "md5"])
+            if ro.exit in (0, 10, 11):
+                with open(cp, "wb") as f:
+                    f.write(old_chain)
+                steps.append("orphan manifest (chain rolled back)")
+                cs.count("orphan_manifests")
+                if not same_second:
+                    now += 2
         if not same_second:
             now += rng.choice([1, 1, 59, 3600, 86400])
             clock.freeze(now)
@@ -154,7 +177,7 @@ def run_case(cs):
                         {**ctx, "history": h, "got": ta[-1], "want": want},
                     )
     # 3. reload
-    _reload(cs, root, steps, zone)
+    _reload(cs, root, steps, zone, base)
     cs.cls("nested%d" % len(nested), "len%d" % (nruns // 4), "exits" + "".join(str(e) for e in sorted(exits)), "same" if same_second else "adv", "utc" if zone == "UTC" else "zone", "ten" if long_seq else "")
     cs.count("zone:" + zone)
     if same_second:
@@ -162,7 +185,8 @@ def run_case(cs):
     cs.sample({"root": rootname, "zone": zone, "nested": nested, "steps": steps[:10]})
 
 
-def _reload(cs, root, steps, zone):
+def _reload(cs, root, steps, zone, base=1):
+    # base: first generation number of the root history (1 unless the harness moved a long-lived history up to 9997+)
     from ascmhl.history import MHLHistory
 
     cs.count("reload_checked")
@@ -178,7 +202,8 @@ def _reload(cs, root, steps, zone):
         rel = os.path.relpath(h.get_root_path(), root)
         ondisk = sorted(hist.gen_no(n) for n in world.manifests(root, rel))
         cs.evaluated()
-        if nums != list(range(1, len(nums) + 1)) or nums != ondisk:
+        first = base if rel == "." else 1
+        if nums != list(range(first, first + len(nums))) or nums != ondisk:
             cs.violation("reload-order", {"kind": "reload-order", "gt9": len(nums) > 9}, {"history": rel, "loaded": nums, "on_disk": ondisk, "steps": steps[-6:]})
         stack.extend(h.child_histories)
     r = drive.run("info", [root])
